@@ -3,7 +3,8 @@
 (* `hist` makes every sequence a distinct state on purpose: the leaves are the op-sequence        *)
 (* universe that the harness replays on the real classes (printed as JSON when Export = TRUE).    *)
 EXTENDS Cache, Json
-CONSTANTS Kind, Max, LSize, AW, DW, Keys, Durs, Depth, Export, WithReopen
+CONSTANTS Kind, Max, LSize, AW, DW, Keys, Durs, Depth, Export, WithReopen,
+          WithNone    \* also put Python's None (NoneV): a resident key whose value is None is still resident
 VARIABLES c, hist, last
 vars == <<c, hist, last>>
 
@@ -13,7 +14,8 @@ Do(o, newlast) == /\ Len(hist) < Depth
                   /\ \E out \in Outcomes(c, o) : c' = out[1] /\ hist' = Append(hist, o)
                   /\ last' = newlast
 
-Put(k, d) == LET v == Len(hist) + 1 IN Do([op |-> "put", k |-> k, v |-> v, d |-> d], Upd(last, k, v))
+Put(k, d) == \E v \in {Len(hist) + 1} \cup (IF WithNone THEN {NoneV} ELSE {}) :
+                 Do([op |-> "put", k |-> k, v |-> v, d |-> d], Upd(last, k, v))
 Get(k)    == Do([op |-> "get", k |-> k], last)
 Clear     == Do([op |-> "clear"], Empty)
 Reopen(m) == WithReopen /\ Kind = "disk" /\ Do([op |-> "reopen", max |-> m, lsize |-> LSize], last)
